@@ -1198,6 +1198,53 @@ func toolDesc(rec json.RawMessage, wildPw string) *desc {
 	return &desc{JSON: mustJSON(top)}
 }
 
+// toolLongPassword: bcrypt only reads the first 72 bytes of a password.  For a longer
+// password the tool may refuse, or produce a record that tells the password apart from
+// every other one; a record that also admits a password with a different tail beyond byte
+// 72 (of which the hashed password is not a prefix) verifies "for another password".
+func toolLongPassword(run *vk.Run, idx uint64) {
+	r := run.Rand(12, idx)
+	n := 73 + r.IntN(120)
+	pw := toolPassword(r, 60)
+	for len(pw) < n {
+		pw += toolPassword(r, 60)
+	}
+	pw = pw[:n]
+	tc := toolCase{Alg: []string{"", "bcrypt"}[r.IntN(2)], Iter: -1, KeyLen: -1, SaltLen: -1, Cost: 4, Pw: pw}
+	out, _, err := runTool(tc)
+	run.Eval(1)
+	if err != nil {
+		var ee *exec.ExitError
+		if errors.As(err, &ee) {
+			run.Count("tool_refused_password_beyond_bcrypt_limit", 1)
+		}
+		return
+	}
+	raw := bytes.TrimSpace(out)
+	var rec map[string]any
+	if json.Unmarshal(raw, &rec) != nil {
+		return
+	}
+	gname := fmt.Sprintf("tool/long%d", idx)
+	d := toolDesc(json.RawMessage(raw), "")
+	gd, err := loadDesc(gname, d.JSON)
+	if err != nil {
+		return
+	}
+	if o := login(gd, gname, "u", pw); !o.Accepted {
+		toolFail(run, idx, tc, "tool-hash-does-not-verify:long-password", fmt.Sprintf("galenectl hashed a %d-byte password into %s; the server refuses that very password: %s", n, raw, o.Err), map[string]any{"phase": "tool-long", "record": string(raw)})
+		return
+	}
+	other := []byte(pw)
+	k := 72 + r.IntN(n-72)
+	other[k] ^= 0x01
+	if o := login(gd, gname, "u", string(other)); o.Accepted {
+		toolFail(run, idx, tc, "tool-hash-verifies-other-password:differs-beyond-byte-72", fmt.Sprintf("galenectl accepted a %d-byte password and printed %s; the record also admits a password of the same length that differs at byte %d", n, raw, k), map[string]any{"phase": "tool-long", "record": string(raw), "other": string(other)})
+		return
+	}
+	run.Count("tool_long_password_round_trips", 1)
+}
+
 func toolRoundTrip(run *vk.Run, idx uint64) {
 	r := run.Rand(2, idx)
 	tc := genToolCase(r, idx)
@@ -1503,6 +1550,8 @@ func main() {
 				modelCase(run, uint64(idx))
 			case "tool":
 				toolRoundTrip(run, uint64(idx))
+			case "tool-long":
+				toolLongPassword(run, uint64(idx))
 			case "boundary":
 				boundaryCase(run, uint64(idx))
 			}
@@ -1517,6 +1566,7 @@ func main() {
 	ntool := run.Pick(40, 3000)
 	nedge := run.Pick(16, 400)
 	pool(uint64(ntool), func(i uint64) { toolRoundTrip(run, i) })
+	pool(uint64(run.Pick(12, 200)), func(i uint64) { toolLongPassword(run, i) })
 	pool(uint64(nedge), func(i uint64) { boundaryCase(run, i) })
 	pool(uint64(ndesc), func(i uint64) { modelCase(run, i) })
 	historyTier(run)
